@@ -64,7 +64,7 @@ impl MatchCase {
             self.alts.iter().map(|a| format!("({})", alt_str(a))).collect::<Vec<_>>().join(" | ")
         };
         match &self.guard {
-            Some(g) => format!("{body} if {}", print_guard(g)),
+            Some(g) => format!("{body} if {}", print_guard_user(g)),
             None => body,
         }
     }
